@@ -43,6 +43,8 @@ EXPECT = {  # subject substring -> checks that should detect the reversal
     "does not send a request on a connection that has been closed": ["C15"],
     "pending request is installed and taken under a lock": ["C15"],
     "Handler::Context is atomic": ["C09"],
+    "keeps its sub-second part": ["C15"],
+    "given up when a request on it times out": ["C15"],
 }
 
 
